@@ -96,8 +96,12 @@ C04_RateStep ==
 C04_RateMonotone ==
   [][Reset \/ (cfg.alg.t = "rate" /\ out'.ev = "Cycle" /\ ~out'.err /\ last # Nil /\ offset' = offset
                  /\ loop.y # Nil /\ out'.cv = ccv /\ kc >= 1
-                => LET d == DirectOf(ccv) IN
-                   /\ (last <= d => out'.req >= last /\ out'.req <= d)
+                => LET d == DirectOf(ccv)
+                       \* (the float evaluation of an exactly integral target may come out one lower, Numeric!RescaleSet: a request
+                       \*  that has reached d from above may still settle on d - 1)
+                       floor == IF last = d /\ (d - 1) \in RescaleSet(Clamp(ccv, 0, P), cfg.gmin + offset, cfg.mx) THEN d - 1 ELSE last
+                   IN
+                   /\ (last <= d => out'.req >= floor /\ out'.req <= d)
                    /\ (last >= d - 1 => out'.req <= Max2(last, d) /\ out'.req >= d - 1))]_pvars
 \* a fan that has been reporting rotation for long enough is never treated as stalled: the steady
 \* value for curve 0 stays the fan's minimum (the average of window n exceeds 1 RPM after
